@@ -501,7 +501,7 @@ CLAIMS = {
          "rowan and the observable behaviour of the queries on every tie position. SEARCHED, not proved: that hover_type / dot_completions / "
          "colon_colon_completions and the wasm-app wrappers return normally (catch_unwind + 5 s watchdog) on every prefix (token boundaries and "
          "mid-token) and token-level mutation of corpus, seed, generated and token-soup programs x every (line, col) incl. positions outside the "
-         "text; that hover at every TAST identifier of an accepted program equals the TAST type (all pipeline corpus programs in the quick tier, plus the `late:*` family: every type constructor around an element whose type is resolved late); that a text and its line-ending twins (CRLF, mixed, blank lines, lone CR, no final newline, tabs, multi-byte text before the cursor) get identical hover/dot/`::` answers at corresponding positions; that every offered completion, inserted, does not "
+         "text; that hover at every TAST identifier of an accepted program equals the TAST type (all pipeline corpus programs in the quick tier, plus the `late:*` family: every type constructor around an element whose type is resolved late, and the `latefix:*` family: the same values completed by an annotation, a later argument, the declared result type, a later branch or match arm); that hover on the initialiser EXPRESSION of every `let` of an accepted program and on its argument / item / operand sub-expressions (calls, literals, struct / tuple / array literals, closures, match, operators) equals the type of the corresponding TAST expression; that no hover answer at any swept position of an accepted program contains an inference variable; that a text and its line-ending twins (CRLF, mixed, blank lines, lone CR, no final newline, tabs, multi-byte text before the cursor) get identical hover/dot/`::` answers at corresponding positions; that every offered completion, inserted, does not "
          "draw the diagnostic a non-existent name draws.",
     design_ref="§5 C20, §C20 — as built",
     note="Trusted: Lean kernel; extract_query_glue (regex over query.rs); harness/src/c20.rs + crash.rs; line-index and rowan behave as modelled "
